@@ -31,7 +31,8 @@ EXPLANATION = (
     'dominated by compute_reflector(.., k), left blocks start at row k and right blocks at column k, row 0; apply_QtY / apply_YQ '
     'apply the reflectors in ascending order at offset = index (Q = P0 P1 ...). (D10) row / column copies used inside the loops are '
     'refreshed on every path of an iteration; (D11) every square root in the helpers is taken of a scaled quantity (1 + ratios), '
-    '(D12) matrix_QtHQ writes the whole output matrix on every normal path; '
+    '(D12) matrix_QtHQ writes the whole output matrix on every normal path; (D13) compute_reflector assigns all three stored entries '
+    'on every path that records a size other than 1 (the vector applier reads the third entry unconditionally); '
     'never of a raw sum of squares (overflow / underflow of the squares for entries near the thresholds). NOT decided: orthogonality, Q R = H - s I and Q\'HQ to n*eps (rounding), the '
     'Taylor branches of the magnitude helpers, deflation thresholds and block splitting (index safety of the blocks is C13). '
     'Those clauses of the property remain undecided by this technique.')
@@ -1211,7 +1212,41 @@ def output_fully_defined(ctx, rule='output-matrix-fully-overwritten'):
         raise AnalysisBroken('only %d matrix_QtHQ members analysed' % n)
 
 
+def reflector_storage_written(ctx, rule='reflector-entries-all-written'):
+    """The appliers read the three stored entries of reflector `ind` (the vector form reads the third one unconditionally and
+    relies on it being 0 for a two-row reflector).  On every path of compute_reflector that records a size other than 1, all
+    three entries u[0], u[1], u[2] of column `ind` are assigned: an entry left from an earlier factorization (or never
+    initialised) would enter Q'y."""
+    from . import paths
+    n = 0
+    for fn in ctx.F.concrete():
+        if fn.cls != 'Spectra::DoubleShiftQR' or fn.name != 'compute_reflector' or len(fn.params) != 4 or not fn.cfg:
+            continue
+        n += 1
+        writes = {0: set(), 1: set(), 2: set()}
+        size_one = set()
+        for x in fn.walk():
+            if x['k'] == 'BinaryOperator' and x.get('op') == '=':
+                t = sym(fn, x, inline=False)
+                if t[1][0] == '[]' and t[1][1] == ('L', 'u') and t[1][2][0] == 'lit' and int(t[1][2][1]) in writes:
+                    writes[int(t[1][2][1])].add(x['id'])
+                if t[1][0] == '[]' and t[1][1] == ('L', 'nr') and t[2] == ('lit', '1'):
+                    size_one.add(x['id'])
+        problems = []
+        for k_ in (0, 1, 2):
+            stop = writes[k_] | size_one
+            hit = paths.search(fn, [], stop=lambda m: m['id'] in stop, target=lambda m: m['k'] == 'ReturnStmt',
+                               include_entry=True, exit_is_target=lambda b: True, normal_only=True)
+            if hit is not None or not writes[k_]:
+                problems.append('a path that records a reflector of size 2 or 3 returns without assigning u[%d]' % k_)
+        ctx.check(not problems, rule, 'DoubleShiftQR::compute_reflector', fn.qname,
+                  'u[0], u[1], u[2] are assigned on every path that records a size other than 1' if not problems else '; '.join(problems))
+    if n < 1:
+        raise AnalysisBroken('compute_reflector not analysed')
+
+
 def run(ctx):
+    reflector_storage_written(ctx)
     rotations(ctx)
     double_shift(ctx)
     scaled_norms(ctx)
